@@ -591,9 +591,23 @@ def sig_shard(seed, n_examples):
                 return "%d %d" % (draw(st.integers(1, 130)), draw(st.integers(1, 130)))
             return " ".join(term() for _ in range(draw(st.integers(1, 2)))) + " * " + term() + " = " + term() + " ."
         a = [line() for _ in range(draw(st.integers(1, 4)))]
+        # the lines that list a block's wires are part of what is signed: "[ioblock] <name> <wire> <wire> ..."
+        nblk = draw(st.integers(0, 2))
+        for j_ in range(nblk):
+            a.append("[ioblock] %s %s" % (draw(st.sampled_from(["4", "f0", "g.1"])), " ".join(str(w) for w in draw(st.lists(st.integers(1, 12), min_size=1, max_size=4)))))
         b = list(a)
-        k = draw(st.integers(0, 4))
-        i = draw(st.integers(0, len(a) - 1))
+        k = draw(st.integers(0, 5 if nblk else 4))
+        i = draw(st.integers(0, len(a) - 1 - nblk))
+        if k == 5:
+            # the same block with its wires in another order / one wire replaced: another layout, another signature
+            i = len(a) - 1 - draw(st.integers(0, nblk - 1))
+            head, ws = b[i].split(" ")[:2], b[i].split(" ")[2:]
+            if len(set(ws)) > 1 and draw(st.booleans()):
+                ws2 = draw(st.permutations(ws).filter(lambda q_: list(q_) != ws))
+            else:
+                j_ = draw(st.integers(0, len(ws) - 1))
+                ws2 = ws[:j_] + [str(int(ws[j_]) + 1)] + ws[j_ + 1:]
+            b[i] = " ".join(head + list(ws2))
         toks = b[i].split(" ")
         nums = [j for j in range(len(toks) - 1) if toks[j].isdigit() and toks[j + 1].isdigit()]
         if k == 0 and nums:
@@ -614,7 +628,7 @@ def sig_shard(seed, n_examples):
             b = list(reversed(a))
         case = {"part": "signature", "a": a, "b": b}
         msg = sig_case(case)
-        stats.case(case, sorted(a) != sorted(b), ("signature:" + ["boundary-moved", "number-changed", "line-added", "reordered", "same"][k],), sample_cap=1)
+        stats.case(case, sorted(a) != sorted(b), ("signature:" + ["boundary-moved", "number-changed", "line-added", "reordered", "same", "block-layout-changed"][k],), sample_cap=1)
         if msg:
             raise core.Violation(case, msg, "signature")
     v = core.drive(test, seed, n_examples)
